@@ -73,8 +73,8 @@ package tchannel
 //@   property C04
 
 // A pooled running checksum is given back to its pool by exactly the code that
-// ends its use: the writer that finishes a call's last fragment, the reader that
-// has verified the last fragment, and the relay when a modified call finishes.
+// ends its use: the writer that finishes a call's last fragment, the reader when
+// it is done reading, and the relay when a modified call finishes.
 // Anybody else releasing one puts an object into the pool that is still (or
 // again) in use, and two concurrent calls then share one running sum.
-//@ callers Checksum.Release : finish, recvAndParseNextFragment, finishRelayItem @ C04 C02
+//@ callers Checksum.Release : finish, doneReading, finishRelayItem @ C04 C02
